@@ -121,8 +121,18 @@ def place(c, base_protected, kid, kidname="kid"):
     return prot, (unprot or None), (rec or None)
 
 
+def _two_families_applicable(c) -> bool:
+    if not (c["kind"] == "jwe" and c["ser"] == "general" and c["op"] == "produce" and c["kidstate"] == "absent" and c["alg"] in ("A128KW", "RSA-OAEP")):
+        return False
+    ks = [gk.key_from_record(k) for k in c["keys"]]
+    agree = [k for k in ks if k["kty"] in ("EC", "OKP")]
+    return bool(agree) and all(k["crv"] in ("P-384", "X448", "secp256k1", "P-256", "X25519") for k in agree)
+
+
 def run_case(c) -> dict:
     from joserfc import jws, jwe
+    if _two_families_applicable(c) and c["seed"] % 2 == 0:
+        return run_multi_produce(c)
     from joserfc.errors import InvalidKeyIdError
     f = {}
     kind, alg, ser = c["kind"], c["alg"], c["ser"]
@@ -313,6 +323,41 @@ def run_case(c) -> dict:
     return f
 
 
+def run_multi_produce(c) -> dict:
+    """General JSON JWE for two recipients of different algorithm families, no kid anywhere, keys taken from one mixed key set: each
+    recipient gets a key of ITS family and that key's kid in ITS header; the private set opens the token."""
+    from joserfc import jwe
+    f = {}
+    kids = eff_kids(c)
+    refkeys = [gk.key_from_record(k) for k in c["keys"]]
+    privset, pubset = build_sets(c)
+    a1 = c["alg"]
+    where = "jwe:produce:general:two-families"
+    o = jwe.GeneralJSONEncryption({"enc": "A128GCM"}, b"payload")
+    o.add_recipient({"alg": a1})
+    o.add_recipient({"alg": "ECDH-ES+A128KW"})
+    arg = pubset if c["keymode"] == "set" else (lambda obj: pubset)
+    try:
+        tok = jwe.encrypt_json(o, arg, algorithms=jweplan.ALL_NAMES)
+    except Exception as e:
+        return {f"C14:produce-refused:absent:{where}:{exc_key(e)}": f"{type(e).__name__}: {e} (kids {kids!r}; recipients {a1}, ECDH-ES+A128KW)"}
+    want_types = [{"oct"} if a1 == "A128KW" else {"RSA"}, {"EC", "OKP"}]
+    for i, ent in enumerate(tok["recipients"]):
+        tk = (ent.get("header") or {}).get("kid")
+        if tk not in kids:
+            f[f"C14:no-kid-recorded:{where}"] = f"recipient {i} carries kid={tk!r}; set has {kids!r}"
+        elif refkeys[kids.index(tk)]["kty"] not in want_types[i]:
+            f[f"C14:picked-key-of-wrong-type:{where}"] = f"recipient {i} got a {refkeys[kids.index(tk)]['kty']} key"
+    if "kid" in json.loads(rb.decode(tok["protected"])):
+        f[f"C14:recipient-kid-in-shared-header:{where}"] = "the kid of one recipient's key stands in the protected header shared by all recipients"
+    try:
+        if jwe.decrypt_json(copy.deepcopy(tok), privset, algorithms=jweplan.ALL_NAMES).plaintext != b"payload":
+            f[f"C14:own-token-wrong-content:{where}"] = "other plaintext"
+    except Exception as e:
+        f[f"C14:own-token-not-consumed-by-key-set:{where}:{exc_key(e)}"] = f"{type(e).__name__}: {e}"
+    return f
+
+
 def run_roundtrip(c) -> dict:
     """import_key_set(as_dict(private=True)) preserves every key and every kid."""
     from joserfc.jwk import KeySet
@@ -374,7 +419,7 @@ def run_shard(ctx, spec):
             ctx.case(("rt", n, tuple(k["kty"] for k in c["keys"]), tuple(k is None for k in c["kids"])), cls="roundtrip-set")
             for k, w in f2.items():
                 ctx.finding(k, w, dict(c, roundtrip=True))
-    drive(ctx, "kid", cases(), body, 380 if ctx.tier == "quick" else 8000)
+    drive(ctx, "kid", cases(), body, 300 if ctx.tier == "quick" else 8000)
 
 
 def replay(rec) -> dict:
